@@ -343,3 +343,104 @@ func checkAllocatorLeavesPagesAlone(c *Ctx, rule string) {
 	}
 	c.floor(rule, 4)
 }
+
+// checkRepliesAreFresh (C02.R18, shared as C09.R9): a reply is an object of its own.  No function that produces a
+// reply packet returns a package-level object: two requests answered with the same object before either reply is
+// written carry the id that was stored last — one request is answered twice, the other never (the refusals of a
+// read-only server, pipelined).
+func checkRepliesAreFresh(c *Ctx, rule string) {
+	p := c.P
+	n := 0
+	var fromGlobal func(v ssa.Value, d int) *ssa.Global
+	fromGlobal = func(v ssa.Value, d int) *ssa.Global {
+		if d > 5 {
+			return nil
+		}
+		switch x := v.(type) {
+		case *ssa.Global:
+			return x
+		case *ssa.UnOp:
+			return fromGlobal(x.X, d+1)
+		case *ssa.MakeInterface:
+			return fromGlobal(x.X, d+1)
+		case *ssa.ChangeInterface:
+			return fromGlobal(x.X, d+1)
+		case *ssa.FieldAddr:
+			return fromGlobal(x.X, d+1)
+		case *ssa.Phi:
+			for _, e := range x.Edges {
+				if g := fromGlobal(e, d+1); g != nil {
+					return g
+				}
+			}
+		}
+		return nil
+	}
+	for _, fn := range p.LibFuncs() {
+		if outermost(fn).Package() != p.Sftp || len(fn.Blocks) == 0 {
+			continue
+		}
+		res := fn.Signature.Results()
+		for i := 0; i < res.Len(); i++ {
+			t := res.At(i).Type()
+			if typeName(t) != "responsePacket" {
+				if _, isPtr := t.Underlying().(*types.Pointer); !isPtr || !p.implementsIface(t, "responsePacket") || p.implementsIface(t, "requestPacket") {
+					continue
+				}
+			}
+			n++
+			var g *ssa.Global
+			for _, lf := range returnLeavesDeep(fn, i) {
+				if x := fromGlobal(lf.v, 0); x != nil {
+					g = x
+				}
+			}
+			what := ""
+			if g != nil {
+				what = g.Name()
+			}
+			c.check(g == nil, rule, "replies returned by "+fnName(fn), p.Pos(fn.Pos()), "made for the request",
+				"a reply returned here is the package-level object "+what+": shared by all requests, it carries the id stored last when it is written")
+		}
+	}
+	c.floor(rule, 20)
+}
+
+// checkOptionErrorRefusesConstruction (C09.R10): NewServer applies its options in order and an option that fails makes
+// the construction fail.  Behind the non-nil side of an option's error no return with a nil error is reachable:
+// a constructor that carries on drops the options behind the failing one — ReadOnly() among them — and hands out a
+// writable server.
+func checkOptionErrorRefusesConstruction(c *Ctx, rule string) {
+	p := c.P
+	fn := p.Func("NewServer")
+	if fn == nil {
+		c.missing(rule, "NewServer")
+		return
+	}
+	c.looked(fnName(fn))
+	n := 0
+	for _, in := range findInstrs(fn, func(in ssa.Instruction) bool {
+		call, ok := in.(*ssa.Call)
+		if !ok || call.Call.IsInvoke() || call.Call.StaticCallee() != nil {
+			return false
+		}
+		return typeName(call.Call.Value.Type()) == "ServerOption" && isErrorType(call.Type())
+	}) {
+		call := in.(*ssa.Call)
+		n++
+		tests := nilTests(call)
+		okReturn := func(x ssa.Instruction) bool {
+			r, ok := x.(*ssa.Return)
+			return ok && len(r.Results) == 2 && isNilConst(r.Results[1])
+		}
+		bad := len(tests) == 0
+		for _, t := range tests {
+			if reachFromNilSide(t, true, okReturn, nil) {
+				bad = true
+			}
+		}
+		c.check(!bad, rule, "an option's error ends NewServer", p.Pos(in.Pos()), "no successful return behind a failed option",
+			"behind an option that returned an error NewServer can still return a server with a nil error: the options behind the failing one (ReadOnly among them) are not applied and nobody is told")
+	}
+	c.floor(rule, 1)
+}
